@@ -6,6 +6,33 @@ use vstd::future::FutureAdditionalSpecFns;
 
 verus! {
 
+// Property tags: identity functions that label a contract clause with the property whose function-level
+// statement it is.  A failed clause is reported with its text, so the tag names the property it decides
+// (tools/check.py: a failed clause tagged for another property only costs this property its proof).
+pub open spec fn c01(b: bool) -> bool { b }
+pub open spec fn c02(b: bool) -> bool { b }
+pub open spec fn c03(b: bool) -> bool { b }
+pub open spec fn c04(b: bool) -> bool { b }
+pub open spec fn c05(b: bool) -> bool { b }
+pub open spec fn c06(b: bool) -> bool { b }
+pub open spec fn c07(b: bool) -> bool { b }
+pub open spec fn c09(b: bool) -> bool { b }
+pub open spec fn c10(b: bool) -> bool { b }
+pub open spec fn c16(b: bool) -> bool { b }
+
+/// `it.snapshot@.remaining()` without bringing vstd's `IteratorSpec` into the scope of the real modules (its spec
+/// methods `peek` / `remaining` would otherwise capture `.peek()` calls of the real code during method resolution)
+#[verifier::prophetic]
+pub open spec fn it_rem<I: vstd::std_specs::iter::IteratorSpec>(i: I) -> Seq<I::Item> {
+    vstd::std_specs::iter::IteratorSpec::remaining(&i)
+}
+
+#[verifier::prophetic]
+pub open spec fn it_laws<I: vstd::std_specs::iter::IteratorSpec>(i: I) -> bool {
+    vstd::std_specs::iter::IteratorSpec::obeys_prophetic_iter_laws(&i)
+}
+
+
 // ------------------------------------------------------------------ byte-sequence views
 
 /// The readable bytes of any `bytes::Buf`/`BufMut`-like object (Bytes, BytesMut).
@@ -112,6 +139,16 @@ pub assume_specification[ bytes::Bytes::is_empty ](b: &bytes::Bytes) -> (r: bool
 
 pub assume_specification[ <bytes::Bytes as core::ops::Deref>::deref ](b: &bytes::Bytes) -> (r: &[u8])
     ensures r@ == buf_seq(b);
+
+/// bytes 1.x: `split_to(at)` returns the first `at` bytes and keeps the rest; panics when `at > len`
+pub assume_specification[ bytes::Bytes::split_to ](b: &mut bytes::Bytes, at: usize) -> (r: bytes::Bytes)
+    requires at <= buf_seq(old(b)).len(),
+    ensures buf_seq(&r) == buf_seq(old(b)).take(at as int), buf_seq(final(b)) == buf_seq(old(b)).skip(at as int);
+
+/// bytes 1.x: `split_off(at)` returns the bytes from `at` on and keeps the first `at`; panics when `at > len`
+pub assume_specification[ bytes::Bytes::split_off ](b: &mut bytes::Bytes, at: usize) -> (r: bytes::Bytes)
+    requires at <= buf_seq(old(b)).len(),
+    ensures buf_seq(&r) == buf_seq(old(b)).skip(at as int), buf_seq(final(b)) == buf_seq(old(b)).take(at as int);
 
 #[verifier::external_trait_specification]
 pub trait ExBuf {
@@ -227,7 +264,7 @@ pub axiom fn axiom_lossy_utf8(s: Seq<char>)
     ensures #[trigger] lossy(utf8(s)) == s;
 
 /// A-utf8-2: replacement expands undecodable input at most threefold.
-pub axiom fn axiom_lossy_len(b: Seq<u8>)
+pub broadcast axiom fn axiom_lossy_len(b: Seq<u8>)
     ensures #[trigger] utf8(lossy(b)).len() <= 3 * b.len();
 
 /// A-utf8-3: the empty string is the empty byte string, both ways.
